@@ -114,7 +114,7 @@ def run(tier, v):
                 "bundled p0f.fp x instances and perturbations of every bundled signature; %d lookups, %d with a reported match; non-trivial = lookups where more than one entry accepts the observation"
                 % (stat.get("stride", 0), stat.get("ntcp", 0), stat.get("nhttp", 0), n_ev, n_rep),
         "samples": samples, "exhaustive": False, "generated_databases": n_gen,
-    }, ["the relation is to the implementation's own calculate_distance / get_quality_score (C12 judges the distances)",
+    }, ["distances are the implementation's own calculate_distance (C12 judges them); the quality expected for the winning distance is the protocol's documented scale (TcpMatchQuality / HttpMatchQuality::distance_to_score, whose shape C12 judges)",
         "reported entry located by pointer identity of the returned &Signature within FingerprintCollection.entries"])
 
 
